@@ -65,5 +65,5 @@ for k,v in m.items():
     json.dump({"Replace":{"/repo/tsh.go":f"{S}/tsh_{k}.go"}},open(f'{S}/{k}.json','w'))
 PY
 for m in m1 m2 m3 fix; do
-  ( cd "$S" && C19_OVERLAY="$S/$m.json" ./bin/c19-dev > "$m.out" 2> "$m.err"; echo "[$m] exit=$? violations=$(grep -c '^VIOLATION' $m.out) $(tail -1 $m.out)"; grep '^VIOLATION' "$m.out" | head -2 | cut -c1-260 )
+  ( cd "$S" && st=0; C19_OVERLAY="$S/$m.json" ./bin/c19-dev > "$m.out" 2> "$m.err" || st=$?; echo "[$m] exit=$st violations=$(grep -c '^VIOLATION' $m.out) $(tail -1 $m.out)"; grep '^VIOLATION' "$m.out" | head -2 | cut -c1-260 )
 done
